@@ -777,6 +777,7 @@ func (c *Ctx) contractMods(fn *ssa.Function, con *Contract) *ModSet {
 			if inf.Top {
 				ms.FreshTop = true
 			}
+			ms.Locks = inf.Locks || inf.Top
 		}
 		return ms
 	}
